@@ -113,14 +113,16 @@ def _run_shard(binp, sub, lines, tag, timeout, env_extra=None):
             for l in lines[start:]:
                 f.write(l); f.write("\n")
         env = dict(os.environ); env["RVDRIVE_TMP"] = TMP
+        cwd = None
         if env_extra:
             env.update(env_extra)
+            cwd = env.pop("__cwd", None)
         try:
             os.remove(marker)
         except OSError:
             pass
         with open(inp) as fi, open(outp, "w") as fo:
-            p = subprocess.Popen([binp, sub, "--marker", marker], stdin=fi, stdout=fo, stderr=subprocess.PIPE, env=env)
+            p = subprocess.Popen([binp, sub, "--marker", marker], stdin=fi, stdout=fo, stderr=subprocess.PIPE, env=env, cwd=cwd)
             try:
                 _, err = p.communicate(timeout=max(1, deadline - time.time()))
             except subprocess.TimeoutExpired:
